@@ -94,7 +94,11 @@ class Ctx:
 
 
 def get_prop(prop_id):
-    return importlib.import_module('sim.props.' + prop_id.lower())
+    prop = importlib.import_module('sim.props.' + prop_id.lower())
+    from . import boot
+    if boot._booted:
+        boot.set_builtin_wrappers(bool(getattr(prop, 'NEEDS_BUILTIN_WRAPPERS', False)))
+    return prop
 
 
 def run_case(prop, case, known):
